@@ -52,6 +52,8 @@ func (E *Engine) allowedFor(comp string, k, j string) (string, bool) {
 		}
 		if lv.Kind == lvElem && !mi.allElems && j != "" {
 			alts = append(alts, and(eq(k, lv.Ref), eq(j, lv.Idx)))
+		} else if lv.Kind == lvElem && mi.allElems && j != "" && mi.lo != "" {
+			alts = append(alts, and(eq(k, lv.Ref), sx("<=", mi.lo, j), sx("<", j, mi.hi)))
 		} else {
 			alts = append(alts, eq(k, lv.Ref))
 		}
